@@ -241,6 +241,7 @@ func (st *State) heapGet(name string, sort Sort) Term {
 	}
 	t := st.eng().constNamed(vn, sort)
 	st.heap[name] = t
+	st.assumeHeapWF(t, sort)
 	if st.entry != nil && st.entry != st {
 		if _, ok := st.entry.heap[name]; !ok {
 			// the entry state's version is always the initial one (a havoc-all may lie in between)
@@ -263,7 +264,43 @@ func (st *State) heapHavoc(name string, sort Sort) Term {
 	nt := st.eng().fresh(name, sort)
 	st.heap[name] = nt
 	st.written[name] = true
+	st.assumeHeapWF(nt, sort)
 	return nt
+}
+
+// assumeHeapWF: strings and slices stored in memory are well-formed Go values (non-negative length, len <= cap).
+// Stated once per arbitrary heap version (entry, havoc) so that reads under quantifiers get the fact too.
+func (st *State) assumeHeapWF(h Term, sort Sort) {
+	r, i := Term{"r!q", SInt}, Term{"i!q", SInt}
+	wf := func(v Term, vs Sort) (Term, bool) {
+		switch vs {
+		case SStr:
+			return Ge(StrLen(v), IntLit(0)), true
+		case SSlice:
+			return And(Ge(SlLen(v), IntLit(0)), Le(SlLen(v), SlCap(v)), Ge(SlOff(v), IntLit(0))), true
+		}
+		return Term{}, false
+	}
+	switch sort {
+	case ArraySort(SInt, SStr), ArraySort(SInt, SSlice):
+		vs := SStr
+		if sort == ArraySort(SInt, SSlice) {
+			vs = SSlice
+		}
+		v := Select(h, r)
+		if f, ok := wf(v, vs); ok {
+			st.assume(ForallPat([]Term{r}, f, v))
+		}
+	case ArraySort(SInt, ArraySort(SInt, SStr)), ArraySort(SInt, ArraySort(SInt, SSlice)):
+		vs := SStr
+		if sort == ArraySort(SInt, ArraySort(SInt, SSlice)) {
+			vs = SSlice
+		}
+		v := Select(Select(h, r), i)
+		if f, ok := wf(v, vs); ok {
+			st.assume(ForallPat([]Term{r, i}, f, v))
+		}
+	}
 }
 
 func (st *State) newRef() Term {
